@@ -654,7 +654,7 @@ def config_key(case):
 
 
 def gen_cases(ctx):
-    n = ctx.budget(120, 3600)
+    n = ctx.budget(120, 1200)
     return [gen_case(ctx.rng, ctx.thorough, ctx.widen) for _ in range(n)]
 
 
